@@ -27,13 +27,16 @@ def isSpreadLit : Node → Bool
   | .arg (some _) (.lit ..) => true
   | _ => false
 
-/-- array literals passed to `apply` are handed to the hook element by element -/
+/-- array literals passed to `apply` are handed to the hook element by element; so is a spread array
+    literal (`...[a, b]` is the same argument list as `a, b`) -/
+def applyElem (el : Node) : Node :=
+  match el with
+  | .arg s e => .arg s e
+  | _ => .arg none (.unary "void" (.lit "NumericLiteral" "{\"value\":0.0,\"raw\":null}" "" Span.dummy) Span.dummy)  -- a hole
+
 def expandApplyArg (a : Node) : List Node :=
   match a with
-  | .arg none (.array elems _) => elems.map fun el =>
-      match el with
-      | .arg s e => .arg s e
-      | _ => .arg none (.unary "void" (.lit "NumericLiteral" "{\"value\":0.0,\"raw\":null}" "" Span.dummy) Span.dummy)  -- a hole
+  | .arg _ (.array elems _) => elems.map applyElem
   | a => [a]
 
 /-- a `+` sum that is not made of literals only (left in place and not passed on when the `+` operator
@@ -50,16 +53,24 @@ def sumClass (cfg : Config) (what : String) : String :=
   if cfg.plusEnabled then what ++ "/sum-omitted-although-plus-is-enabled"
   else what ++ "/uninstrumented-sum-omitted-when-plus-is-disabled"
 
+def isArgNode : Node → Bool
+  | .arg .. => true
+  | _ => false
+
+/-- the arguments of a call are its `ExprOrSpread` children (swc's `Vec<ExprOrSpread>` holds nothing
+    else; the untyped `Node` tree could, and such children are not arguments) -/
+def callArgs (cargs : List Node) : List Node := cargs.filter isArgNode
+
 /-- expected hook arguments (after the result) for a method-call shaped first argument -/
 def expectedCallArgs (first : Node) : Option (List Node) :=
   match first with
   | .call (.member f (.pname ca _) _) cargs _ =>
     if ca == Generated.callMethodName then
-      some (.arg none f :: cargs)
+      some (.arg none f :: callArgs cargs)
     else if ca == Generated.applyMethodName then
-      match cargs with
+      match callArgs cargs with
       | this :: rest =>
-        if isSpreadArg this then some (.arg none f :: (cargs.map expandApplyArg).flatten)
+        if isSpreadArg this then some (.arg none f :: ((this :: rest).map expandApplyArg).flatten)
         else some (.arg none f :: this :: (rest.map expandApplyArg).flatten)
       | [] => none
     else none
@@ -85,8 +96,8 @@ def mirrorTpl (cfg : Config) (name : String) (exprs rest : List Node) : Option S
 def mirrorBare (cfg : Config) (f : Node) (cargs rest : List Node) : Option String :=
   match rest with
   | fArg :: .arg none (.ident (.user "undefined") _) :: restArgs =>
-    if Node.eqNS fArg (.arg none f) && argsEq restArgs cargs then none
-    else if cargs.any (fun a => isNonLiteralSum (argOf a)) then some (sumClass cfg "call")
+    if Node.eqNS fArg (.arg none f) && argsEq restArgs (callArgs cargs) then none
+    else if (callArgs cargs).any (fun a => isNonLiteralSum (argOf a)) then some (sumClass cfg "call")
     else some "bare-call/mismatch"
   | _ => some "bare-call/mismatch"
 
